@@ -280,6 +280,7 @@ def c08_cont_jobs(tier):
             for r0 in (0, 1):
                 for left in (0, 1):
                     jobs.append({"func": "verif_C08_views2", "args": [kind, r0, left]})
+            jobs.append({"func": "verif_C08_views2", "args": [kind, 0, 2], "tag": f"views2 kind={kind} workspace [G|B]"})
         jobs.append({"func": "verif_C08_dotpanic", "args": [kind]})
     return jobs
 
@@ -415,18 +416,24 @@ def c03_jobs(tier):
                                                  "tag": f"mat op={op} r={rk} a={ak} b={bk} pa={pa} pb={pb} pr={pr}"})
         for pa in pats:
             jobs.append({"func": "verif_C03_ctor", "args": [sk, n, pa]})
+    # constant sparse vectors: every order of first use
+    for pat in ((0b1010, 0b0110, 0b1111, 0b1001) if quick else range(16)):
+        for jj in (1, 2, 3):
+            for order in range(3):
+                jobs.append({"func": "verif_C03_constsparse", "args": [pat, jj, order], "tag": f"constsparse pat={pat} j={jj} order={order}"})
     return jobs
 
 
 PROPS["C03"] = {
-    "overlay": [RT, VIEWS, ("root/zz_verif_c03.go", "zz_verif_c03.go")],
+    "overlay": [RT, VIEWS, ("root/zz_verif_c03.go", "zz_verif_c03.go"), ("root/zz_verif_c03_const.go", "zz_verif_c03_const.go")],
     "mode": "fp", "intmode": "int",
     "jobs": c03_jobs,
-    "reach": ["C03-vec", "C03-mat", "C03-ctor"],
+    "reach": ["C03-vec", "C03-mat", "C03-ctor", "C03-constsparse"],
     "selftest_vars": ["a", "b", "r", "s", "a.d", "b.d", "r.d"],
     "bounds": {"quick": "vectors of length 3 and 2x3 matrices, Float64 and Real64 elements (values and one gradient slot), every dense/sparse combination of receiver and operands, "
-                        "zero patterns enumerated (leading, trailing, interleaved, all-zero, explicitly stored zeros), non-zero elements symbolic finite floats, symbolic prior receiver content",
-               "thorough": "also Float32/Real32 and more zero patterns"},
+                        "zero patterns enumerated (leading, trailing, interleaved, all-zero, explicitly stored zeros), non-zero elements symbolic finite floats, symbolic prior receiver content; "
+                        "constant sparse vectors (length 4, 4 support patterns): positional reads, iteration, ConstSlice and dense.Set agree with the dense model in three orders of first use",
+               "thorough": "also Float32/Real32 and more zero patterns; all 16 support patterns of the constant sparse vectors"},
     "outside": "dimensions above 3 / 2x3; element values that are infinite or NaN; integer element types; map-order dependence of Reduce",
     "assumptions": ["map iteration order modelled as ascending key order", "non-zero elements are finite (0*Inf style differences between skipping and multiplying are outside the statement's 'mathematical result')"],
 }
@@ -605,11 +612,17 @@ def c12_jobs(tier):
     for pa in vp[:3]:
         jobs.append({"func": "verif_C12_ctor", "args": [3, pa]})
     # algorithm entry points under a write watch (zzverif/c12alg.go)
-    for which in range(22):
+    for which in range(24):
         for kind in ((0,) if quick else (0, 1)):
             for n in ((2,) if quick else (2, 3)):
                 jobs.append({"pkg": ZZ, "func": "verif_C12_alg", "args": [which, kind, n], "tag": f"alg which={which} kind={kind} n={n}",
                              "bfs": True, "max_paths": 24 if quick else 120, "max_wall_ms": 20000 if quick else 120000, "selftest": True})
+                if which in (0, 1, 2, 3, 4, 5, 6, 18, 19, 20, 22, 23):
+                    # iterative routines: also depth first, which follows the convergence loop (the
+                    # breadth-first job sees the early exits) until the step bound
+                    jobs.append({"pkg": ZZ, "func": "verif_C12_alg", "args": [which, kind, n], "tag": f"alg-deep which={which} kind={kind} n={n}",
+                                 "max_paths": 6 if quick else 30, "max_steps": 400000, "max_wall_ms": 25000 if quick else 120000, "selftest": False,
+                                 "follow": "c12"})
     return jobs
 
 
@@ -622,7 +635,7 @@ PROPS["C12"] = {
     "reach": ["C12-vec", "C12-mat", "C12-scalar", "C12-iter", "C12-operands", "C12-ctor", "C12-alg"],
     "selftest_vars": ["a", "a.d", "a.h", "v", "v.d", "w", "w.d", "w.h", "u", "u.d", "u.h", "b", "b.d", "f", "g"],
     "bounds": {"quick": "Clone*/As* of dense and sparse Float64/Real64 vectors (length 3) and matrices (Slice/T views of a 3x3 parent, all slice bounds), Real64/Float64 scalars (jets N=2, order 2), iterator clones; "
-                        "symbolic element values, every position of clone / source mutated with symbolic values; read-only operands of 6 operation groups; index/value constructors; 22 algorithm entry-point configurations (qrAlgorithm incl. Symmetric and caller-supplied work space, eigensystem, svd, Hessenberg / bidiagonal / tridiagonal reductions, Gram-Schmidt, Cholesky, inverse, determinant, back substitution, msqrt, msqrtInv) on symbolic 2x2 matrices with the input under a write watch",
+                        "symbolic element values, every position of clone / source mutated with symbolic values; read-only operands of 6 operation groups; index/value constructors; 24 algorithm entry-point configurations (incl. an InSitu object reused for a second matrix) (qrAlgorithm incl. Symmetric and caller-supplied work space, eigensystem, svd, Hessenberg / bidiagonal / tridiagonal reductions, Gram-Schmidt, Cholesky, inverse, determinant, back substitution, msqrt, msqrtInv) on symbolic 2x2 matrices with the input under a write watch",
                "thorough": "also Float32/Real32 and depth-3 views; algorithm entry points also on 3x3 and Real64"},
     "outside": "optimiser entry points (start vectors of rprop / bfgs / newton / gradientDescent / saga); distributions' constructors; for the iterative entry points the input is watched along the explored paths only (breadth-first, path and time caps stated in the evidence): a write that happens only after many iterations is not seen",
     "assumptions": ["map iteration order modelled as ascending key order"],
@@ -969,11 +982,17 @@ def c16_jobs(tier):
         for n in (2, 3):
             if family < 2:
                 J("verif_C16_bounds", [family, n])
+    # bit-precise: sigma >= SigmaMin and not NaN, also when the empirical variance rounds below zero
+    for (n, eq) in ((3, 1), (2, 0), (3, 0)):
+        jobs.append({"pkg": ZZ, "func": "verif_C16_sigma_fp", "args": [n, eq], "mode": "fp", "intmode": "int", "obl_cap_ms": 120000,
+                     "tag": f"sigma-fp n={n} equal={eq}"})
     # mixture EM: one E-step + weight M-step (in-package harness), sequential pool here (C17 runs it with k threads)
     GEN = ROOT + "/statistics/generic"
     for (m, n, cmode) in ([(2, 2, 0), (2, 2, 1), (2, 3, 1), (2, 1, 2)] if tier == "quick" else [(2, 2, 0), (2, 2, 1), (2, 3, 1), (2, 1, 2), (3, 2, 1), (2, 4, 1), (3, 3, 0)]):
-        jobs.append({"pkg": GEN, "func": "verif_C16_emstep", "args": [m, n, 1, cmode], "mode": "real", "intmode": "int", "summarise_logadd": True,
+        jobs.append({"pkg": GEN, "func": "verif_C16_emstep", "args": [m, n, 1, cmode, 0], "mode": "real", "intmode": "int", "summarise_logadd": True,
                      "tag": f"emstep m={m} n={n} k=1 counts={cmode}"})
+    jobs.append({"pkg": GEN, "func": "verif_C16_emstep", "args": [2, 2, 1, 1, 1], "mode": "real", "intmode": "int", "summarise_logadd": True,
+                 "tag": "emstep m=2 n=2 k=1 counts=1 stale accumulators"})
     return jobs
 
 
@@ -982,7 +1001,7 @@ PROPS["C16"] = {
     "patterns": ["./zzverif", "./statistics/generic"],
     "mode": "real", "intmode": "int",
     "jobs": c16_jobs,
-    "reach": ["score", "bounds", "C16-emstep"],
+    "reach": ["score", "bounds", "C16-emstep", "sigma-fp"],
     "replay_tol": 1e-6,
     "job_budget_ms": {"quick": 120000, "thorough": 400000},
     "selftest_vars": [],
@@ -1005,9 +1024,12 @@ def c17_jobs(tier):
                 J("verif_C17_pool", [family, n, k, weighted])
     # mixture EM step with k threads, every assignment of observations to threads
     GEN = ROOT + "/statistics/generic"
-    for (m, n, k, cmode) in ([(2, 2, 2, 1), (2, 3, 2, 0), (2, 2, 3, 1)] if tier == "quick" else [(2, 2, 2, 1), (2, 3, 2, 0), (2, 2, 3, 1), (2, 3, 3, 1), (2, 4, 2, 1), (3, 2, 2, 0)]):
-        jobs.append({"pkg": GEN, "func": "verif_C16_emstep", "args": [m, n, k, cmode], "mode": "real", "intmode": "int", "summarise_logadd": True,
-                     "tag": f"emstep m={m} n={n} k={k} counts={cmode}"})
+    # (k >= n + 2 leaves the pool's first thread without a job on every native schedule, which is what lets
+    # a counterexample that needs an idle first thread reproduce in the native replay)
+    for (m, n, k, cmode) in ([(2, 2, 2, 1), (2, 3, 2, 0), (2, 2, 4, 1), (2, 1, 3, 0), (2, 2, 8, 1)] if tier == "quick" else [(2, 2, 2, 1), (2, 3, 2, 0), (2, 2, 3, 1), (2, 2, 4, 1), (2, 1, 3, 0), (2, 3, 3, 1), (2, 4, 2, 1), (3, 2, 2, 0)]):
+        for stale in (0, 1):
+            jobs.append({"pkg": GEN, "func": "verif_C16_emstep", "args": [m, n, k, cmode, stale], "mode": "real", "intmode": "int", "summarise_logadd": True,
+                         "tag": f"emstep m={m} n={n} k={k} counts={cmode} stale={stale}"})
     return jobs
 
 
@@ -1020,6 +1042,7 @@ PROPS["C17"] = {
     "replay_tol": 1e-6,
     "job_budget_ms": {"quick": 120000, "thorough": 400000},
     "selftest_vars": [],
+    "replay_repeat": 300,
     # natively the real pool runs and float sums are grouped by the scheduler's
     # assignment, the executor groups them by symbolic thread ids: no bit-exact
     # trace comparison is possible (native replays compare within replay_tol)
@@ -1062,8 +1085,10 @@ PROPS["C07"] = {
     "job_budget_ms": {"quick": 150000, "thorough": 400000},
     "selftest_vars": [],
     "bounds": {"quick": "gradient descent (about 3 iterations by the step bound), Rprop (iteration caps 2, 3) and the strong-Wolfe line search (evaluation caps 2, 3) in dimension 1 with an uninterpreted objective (value and derivative are uninterpreted functions of the point), "
-                        "symbolic start, step and epsilon: on every path that returns before the cap the stopping predicate holds when re-evaluated at the returned point, hooks receive value and gradient of the point passed with them, the start vector is unchanged",
-               "thorough": "caps 4"},
-    "outside": "convergence; the 'within tolerance of the minimiser of a convex quadratic' clause; BFGS, Newton (root / crit / min), Adam, SAGA, Blahut-Arimoto; dimension above 1; paths longer than the stated caps",
-    "assumptions": ["the objective is a function: equal points give equal value and derivative (uninterpreted functions over the reals)", "floats read as reals"],
+                        "symbolic start, step and epsilon: on every path that returns before the cap the stopping predicate holds when re-evaluated at the returned point, hooks receive value and gradient of the point passed with them, the start vector is unchanged; "
+                        "Newton root finding (RunRoot, iteration cap 2, with and without a caller-supplied constraint; residual an uninterpreted function, Jacobian uninterpreted or the constant 1) with bit-precise floats: "
+                        "a return without error before the cap has a residual norm below epsilon and, under a constraint, is feasible",
+               "thorough": "caps 4; Newton cap 3"},
+    "outside": "convergence; the 'within tolerance of the minimiser of a convex quadratic' clause; BFGS, Newton crit / min and the Hessian modifications, Adam, SAGA, Blahut-Arimoto; dimension above 1; paths longer than the stated caps (breadth-first exploration with path and time caps for Newton: what is cut is reported)",
+    "assumptions": ["the objective is a function: equal points give equal value and derivative (uninterpreted functions)", "gradient descent, Rprop, line search: floats read as reals; Newton: bit-precise floats, math.Pow(x,2) = x*x in the normal range (Go's algorithm rounds once; compared on 2*10^7 random arguments)"],
 }
